@@ -245,7 +245,7 @@ theorem KInv.collect_keys_nodup {s : PB} (h : KInv s) : (s.collect.map (·.1)).N
           · cases hq
           · injection hq with hq
             rw [← hq]
-            exact List.Sublist.cons₂ _ ih
+            exact List.Sublist.cons_cons _ ih
     exact this.nodup h.mapKeys
   · -- disjoint: an ASCII key is never a wide key
     intro k hk1 k' hk2 e
